@@ -458,24 +458,28 @@ def run_case(spec, sub=None):
             else:
                 consts = [i for i in range(n) if (i + call["vk"]) % 2 == 0]
                 args = [arrays[i] if i in consts else shapes[i] for i in range(n)]
+                # (stripping while tracing through a SLICED tree is not supported:
+                # the slices are gathered with python max() on traced scalars)
+                strip_c = strip if o != "tree_sliced" else False
                 k2 = {kk: vv for kk, vv in kw.items()}
                 if fn == "expression_constants":
                     def mk(args_):
                         return ctg.array_contract_expression(
                             inputs, output, shapes=[a if isinstance(a, tuple) else a.shape for a in args_],
-                            optimize=optimize, constants={i: args_[i] for i in consts}, cache=cache, **canon_kw, **k2,
+                            optimize=optimize, constants={i: args_[i] for i in consts}, cache=cache,
+                            strip_exponent=strip_c, **canon_kw, **k2,
                         )
                 else:
                     def mk(args_):
-                        return ctg.einsum_expression(eq, *args_, optimize=optimize, constants=consts, cache=cache, **k2)
+                        return ctg.einsum_expression(eq, *args_, optimize=optimize, constants=consts, cache=cache, strip_exponent=strip_c, **k2)
                 e = mk(args)
                 free = [arrays[i] for i in range(n) if i not in consts]
-                out["values"].append((e(*free), exp, False))
+                out["values"].append((e(*free), exp, bool(strip_c)))
                 # fresh arrays for the non-constant operands only
                 mixed = [arrays[i] if i in consts else arrays2[i] for i in range(n)]
                 exp_m = ref.dense_ref(inputs, output, sizes, mixed)
                 free2 = [arrays2[i] for i in range(n) if i not in consts]
-                out["values"].append((e(*free2), exp_m, False))
+                out["values"].append((e(*free2), exp_m, bool(strip_c)))
                 # the constants are updated IN PLACE and the expression is asked
                 # for again: it must be built from their current values
                 changed = [a.copy() for a in arrays]
@@ -485,7 +489,7 @@ def run_case(spec, sub=None):
                     args3 = [arrays[i] if i in consts else shapes[i] for i in range(n)]
                     e3 = mk(args3)
                     exp3 = ref.dense_ref(inputs, output, sizes, arrays)
-                    out["values"].append((e3(*free), exp3, False))
+                    out["values"].append((e3(*free), exp3, bool(strip_c)))
                 finally:
                     for i in consts:
                         arrays[i][...] = changed[i]
